@@ -213,8 +213,10 @@ Print Assumptions C06_nonvacuous.
    to the documented form Mapping.to_json by conforms_nullable / _int64 / _bytes / _ts / _empty) validates against the
    component schema of the message and carries no property that schema does not describe.
    Added hypotheses: nullable — ConformCodecs.nullable_shape (nullable = true only on singular / optional fields of
-   scalar kinds other than enum; needed: C06_message_valid_nullable_needs_nonenum is a FINDING, the two others are
-   placements the generator refuses); bytes / timestamp — ConformCodecs.codec_params P (the formats hex, base64url,
+   non-message kinds - enums included since the repair of the finding nullable-enum-null-not-in-enum, see
+   C06_nullable_enum_null_validates - and the enum of a nullable enum field declares a value, as protoc demands;
+   needed: C06_message_valid_nullable_needs_inhabited / _needs_nonmessage / _needs_singular are corners protoc or the
+   generator refuse); bytes / timestamp — ConformCodecs.codec_params P (the formats hex, base64url,
    date, unix-timestamp(-ms) are annotations and the hex pattern matches hex text; P06 satisfies it);
    empty_behavior — the reference walk needs the validation fuel of the value when a field is NULL-annotated
    (C06_message_valid_empty_needs_fuel). *)
@@ -222,13 +224,15 @@ From SebufProofs Require NullableFacts NullableConforms Int64Conforms BytesConfo
 
 (* the documented form itself, for any mix of the five annotations on one message (ConformCodecs.c6_msg_ok: every field
    is un-annotated as far as its own rendering goes, or NUMBER on a non-map 64-bit field, or a non-map bytes field, or
-   a singular Timestamp with a format; nullable on singular scalars only; no flatten, no configured oneof, no root unwrap) *)
+   a singular Timestamp with a format; nullable on singular non-message fields only, ConformCodecs.nullable_enums_inhabited:
+   the enum of a nullable enum field is not empty; no flatten, no configured oneof, no root unwrap) *)
 Theorem C06_message_valid_documented : forall (E : ExtLib) (sc : schema) (P : vparams) (cs : list (str * ynode))
     (tn : str) (md : message) (m : mval) (j : json),
   fprint_is_number E -> wire_formats_are_annotations P ->
   forallb ConformCodecs.plain_or_i64 (m_fields md) = true \/ ConformCodecs.codec_params P ->
   find_message (all_messages sc) ts_name = None -> str_eqb tn ts_name = false -> is_wkt_other tn = false ->
   find_message (all_messages sc) tn = Some md -> ConformCodecs.c6_msg_ok md = true ->
+  ConformCodecs.nullable_enums_inhabited sc md = true ->
   wt sc (KMessage tn) (FM m) = true -> ConformCodecs.kids_plain sc md m = true ->
   defects_C06 sc no_side cs tn m = [] ->
   Mapping.to_json E sc tn m = ROk j ->
@@ -239,14 +243,15 @@ Theorem C06_message_valid_documented : forall (E : ExtLib) (sc : schema) (P : vp
 Proof. exact ConformCodecs.spec_message_conforms. Qed.
 Print Assumptions C06_message_valid_documented.
 
-(* nullable: an unset field is sent as null and the property is published as type [T, "null"] *)
+(* nullable: an unset field is sent as null and the property is published as type [T, "null"] (for an enum field
+   also enum [names..., null]) *)
 Theorem C06_message_valid_nullable : forall (E : ExtLib) (sc : schema) (P : vparams) (cs : list (str * ynode))
     (tn : str) (md : message) (m : mval) (j : json),
   fprint_is_number E -> wire_formats_are_annotations P ->
   find_message (all_messages sc) ts_name = None -> str_eqb tn ts_name = false -> is_wkt_other tn = false ->
   find_message (all_messages sc) tn = Some md -> owner_of sc md = Own FtNullable ->
   NullableFacts.nodup_str (map jn (m_fields md)) = true -> NullableConforms.nulplain_msg md = true ->
-  ConformCodecs.nullable_shape md = true ->
+  ConformCodecs.nullable_shape sc md = true ->
   wt sc (KMessage tn) (FM m) = true -> ConformCodecs.kids_plain sc md m = true ->
   defects_C06 sc no_side cs tn m = [] ->
   (encode E sc tn m = ROk j \/ Mapping.to_json E sc tn m = ROk j) ->
@@ -337,7 +342,7 @@ Print Assumptions C06_codec_params_inhabited.
 Example C06_message_valid_nullable_nonvacuous :
   ConformCodecs.k6_common (ConformCodecs.k6q "Nul") ConformCodecs.k6_nul ConformCodecs.nul_value /\
   owner_of ConformCodecs.k6s ConformCodecs.k6_nul = Own FtNullable /\ NullableConforms.nulplain_msg ConformCodecs.k6_nul = true /\
-  ConformCodecs.nullable_shape ConformCodecs.k6_nul = true /\
+  ConformCodecs.nullable_shape ConformCodecs.k6s ConformCodecs.k6_nul = true /\
   ConformCodecs.kids_plain ConformCodecs.k6s ConformCodecs.k6_nul ConformCodecs.nul_value = true /\
   encode Ex ConformCodecs.k6s (ConformCodecs.k6q "Nul") ConformCodecs.nul_value = ROk ConformCodecs.nul_json /\
   (forall fuel, need (FM ConformCodecs.nul_value) <= fuel ->
@@ -401,30 +406,76 @@ Example C06_message_valid_empty_nonvacuous :
 Proof. exact ConformCodecs.message_conforms_empty_nonvacuous. Qed.
 Print Assumptions C06_message_valid_empty_nonvacuous.
 
-(* FINDING — the side condition of C06_message_valid_nullable is needed, and the case it excludes is one the generator
-   accepts: `optional Color color = 1 [(sebuf.http.nullable) = true]` (ValidateNullableAnnotation refuses only
-   non-optional and message fields).  makeNullableSchema (openapiv3/types.go:81-100) appends "null" to `type` and leaves
-   `enum` alone: the property is {type: [string, null], enum: [COLOR_UNSPECIFIED, COLOR_RED]}.  With the field unset the
-   server sends "color": null (httpgen/nullable.go:147-156), which is not one of the enum values: the emitted schema
-   REJECTS the server's JSON.  (Found by the proof of C06_message_valid_nullable; confirmed on the emitted document by the
-   reference validator; now the defect class D6NullableEnum, listed in KNOWN_FINDINGS.jsonl.) *)
-Example C06_message_valid_nullable_needs_nonenum :
-  let m := [(s "id", vstr "x")] in
-  let j := JObj [(s "id", JStr (s "x")); (s "color", JNull)] in
-  defects_C06 ConformCodecs.k6s no_side (cd_cs ConformCodecs.k6doc) (ConformCodecs.k6q "NulEnum") m = [D6NullableEnum] /\
-  wt ConformCodecs.k6s (KMessage (ConformCodecs.k6q "NulEnum")) (FM m) = true /\
+(* REPAIRED FINDING nullable-enum-null-not-in-enum.  `optional Color color = 1 [(sebuf.http.nullable) = true]` is accepted
+   by the generator (ValidateNullableAnnotation refuses only non-optional and message fields) and the server sends
+   "color": null for the unset field (httpgen/nullable.go:147-156).  Before the repair makeNullableSchema
+   (openapiv3/types.go) appended "null" to `type` and left `enum` alone, so the emitted schema REJECTED the server's JSON
+   (found by the proof of C06_message_valid_nullable, whose side condition then excluded enum kinds; confirmed on the
+   emitted document by the reference validator).  The repaired builder appends a !!null member to a non-empty `enum`:
+   the property is {type: [string, null], enum: [COLOR_UNSPECIFIED, COLOR_RED, null]} under both readers, the null and each
+   name validate (another string still does not), no defect is tagged, and the message is an instance of
+   C06_message_valid_nullable with the field unset and with it set.  The same happens to the enum list of an enum with
+   enum_value custom strings and of an enum_encoding = NUMBER field. *)
+Example C06_nullable_enum_null_validates :
+  let sch := typed (convert_field ConformCodecs.k6s no_side (ConformCodecs.k6q "NulEnum") ConformCodecs.k6_color_field) in
+  convert_field ConformCodecs.k6s no_side (ConformCodecs.k6q "NulEnum") ConformCodecs.k6_color_field
+    = YMap [(s "type", YSeq [YGoStr (s "string"); YGoStr (s "null")]);
+            (s "enum", YSeq [YPlain (s "COLOR_UNSPECIFIED"); YPlain (s "COLOR_RED"); YNull])] /\
+  sch = SObj [KwType [TString; TNull]; KwEnum [JVStr (s "COLOR_UNSPECIFIED"); JVStr (s "COLOR_RED"); JVNull]] /\
+  schema_of_jv schema_fuel (denote reader11 (convert_field ConformCodecs.k6s no_side (ConformCodecs.k6q "NulEnum") ConformCodecs.k6_color_field)) = sch /\
+  validates P06 (cd_tcs ConformCodecs.k6doc) c06_fuel sch JVNull = VOk true /\
+  validates P06 (cd_tcs ConformCodecs.k6doc) c06_fuel sch (JVStr (s "COLOR_UNSPECIFIED")) = VOk true /\
+  validates P06 (cd_tcs ConformCodecs.k6doc) c06_fuel sch (JVStr (s "COLOR_RED")) = VOk true /\
+  validates P06 (cd_tcs ConformCodecs.k6doc) c06_fuel sch (JVStr (s "COLOR_BLUE")) = VOk false /\
+  defects_C06 ConformCodecs.k6s no_side (cd_cs ConformCodecs.k6doc) (ConformCodecs.k6q "NulEnum") ConformCodecs.nulenum_unset = [] /\
+  validates P06 (cd_tcs ConformCodecs.k6doc) c06_fuel (body_schema (ConformCodecs.k6q "NulEnum")) (wire_jv ConformCodecs.nulenum_unset_json) = VOk true /\
+  typed (convert_field ConformCodecs.k6s no_side (ConformCodecs.k6q "NulEnum2") ConformCodecs.k6_shade_field)
+    = SObj [KwType [TString; TNull]; KwEnum [JVStr (s "none"); JVStr (s "dark"); JVNull]] /\
+  typed (convert_field ConformCodecs.k6s no_side (ConformCodecs.k6q "NulEnum2") ConformCodecs.k6_colornum_field)
+    = SObj [KwType [TInteger; TNull]; KwEnum [JVNum (dec_of_Z 0); JVNum (dec_of_Z 1); JVNull]] /\
+  ConformCodecs.k6_verdict (ConformCodecs.k6q "NulEnum2") [(s "id", vstr "x")]
+    = ROk (JObj [(s "id", JStr (s "x")); (s "shade", JNull); (s "colorNum", JNull)], VOk true, 0%Z).
+Proof. exact ConformCodecs.nullable_enum_null_validates. Qed.
+Print Assumptions C06_nullable_enum_null_validates.
+
+(* ... and the nullable enum message under the theorem: all hypotheses hold, unset (null on the wire) and set *)
+Example C06_message_valid_nullable_enum_nonvacuous :
   owner_of ConformCodecs.k6s ConformCodecs.k6_nulenum = Own FtNullable /\ NullableConforms.nulplain_msg ConformCodecs.k6_nulenum = true /\
-  ConformCodecs.kids_plain ConformCodecs.k6s ConformCodecs.k6_nulenum m = true /\
-  ConformCodecs.nullable_shape ConformCodecs.k6_nulenum = false /\
-  encode Ex ConformCodecs.k6s (ConformCodecs.k6q "NulEnum") m = ROk j /\ Mapping.to_json Ex ConformCodecs.k6s (ConformCodecs.k6q "NulEnum") m = ROk j /\
-  typed (convert_field ConformCodecs.k6s no_side (ConformCodecs.k6q "NulEnum")
-           (set_nullable (fld "color" 1 (KEnum (ConformCodecs.k6q "Color")) Optional)))
-    = SObj [KwType [TString; TNull]; KwEnum [JVStr (s "COLOR_UNSPECIFIED"); JVStr (s "COLOR_RED")]] /\
-  validates P06 (cd_tcs ConformCodecs.k6doc) c06_fuel (body_schema (ConformCodecs.k6q "NulEnum")) (wire_jv j) = VOk false /\
-  ConformCodecs.k6_verdict (ConformCodecs.k6q "NulEnum") [(s "color", FS (VEnum 1)); (s "id", vstr "x")]
-    = ROk (JObj [(s "color", JStr (s "COLOR_RED")); (s "id", JStr (s "x"))], VOk true, 0%Z).
-Proof. exact ConformCodecs.message_conforms_nullable_needs_nonenum. Qed.
-Print Assumptions C06_message_valid_nullable_needs_nonenum.
+  ConformCodecs.nullable_shape ConformCodecs.k6s ConformCodecs.k6_nulenum = true /\
+  (ConformCodecs.k6_common (ConformCodecs.k6q "NulEnum") ConformCodecs.k6_nulenum ConformCodecs.nulenum_unset /\
+   ConformCodecs.kids_plain ConformCodecs.k6s ConformCodecs.k6_nulenum ConformCodecs.nulenum_unset = true /\
+   encode Ex ConformCodecs.k6s (ConformCodecs.k6q "NulEnum") ConformCodecs.nulenum_unset = ROk ConformCodecs.nulenum_unset_json /\
+   (forall fuel, need (FM ConformCodecs.nulenum_unset) <= fuel ->
+      validates P06 (cd_tcs ConformCodecs.k6doc) fuel (body_schema (ConformCodecs.k6q "NulEnum")) (wire_jv ConformCodecs.nulenum_unset_json) = VOk true) /\
+   (forall uf vf, und P06 (cd_tcs ConformCodecs.k6doc) uf vf (body_schema (ConformCodecs.k6q "NulEnum")) (wire_jv ConformCodecs.nulenum_unset_json) = 0) /\
+   ConformCodecs.k6_verdict (ConformCodecs.k6q "NulEnum") ConformCodecs.nulenum_unset = ROk (ConformCodecs.nulenum_unset_json, VOk true, 0%Z)) /\
+  (ConformCodecs.k6_common (ConformCodecs.k6q "NulEnum") ConformCodecs.k6_nulenum ConformCodecs.nulenum_set /\
+   ConformCodecs.kids_plain ConformCodecs.k6s ConformCodecs.k6_nulenum ConformCodecs.nulenum_set = true /\
+   encode Ex ConformCodecs.k6s (ConformCodecs.k6q "NulEnum") ConformCodecs.nulenum_set = ROk ConformCodecs.nulenum_set_json /\
+   (forall fuel, need (FM ConformCodecs.nulenum_set) <= fuel ->
+      validates P06 (cd_tcs ConformCodecs.k6doc) fuel (body_schema (ConformCodecs.k6q "NulEnum")) (wire_jv ConformCodecs.nulenum_set_json) = VOk true) /\
+   (forall uf vf, und P06 (cd_tcs ConformCodecs.k6doc) uf vf (body_schema (ConformCodecs.k6q "NulEnum")) (wire_jv ConformCodecs.nulenum_set_json) = 0) /\
+   ConformCodecs.k6_verdict (ConformCodecs.k6q "NulEnum") ConformCodecs.nulenum_set = ROk (ConformCodecs.nulenum_set_json, VOk true, 0%Z)).
+Proof. exact ConformCodecs.message_conforms_nullable_enum_nonvacuous. Qed.
+Print Assumptions C06_message_valid_nullable_enum_nonvacuous.
+
+(* the side condition that remains on enum kinds: an enum WITHOUT values (refused by protoc and by protodesc, so no
+   emitted document has one) is published as `enum: []`, which makeNullableSchema leaves empty, and null is rejected *)
+Example C06_message_valid_nullable_needs_inhabited :
+  let m := [(s "id", vstr "x")] in
+  let j := JObj [(s "id", JStr (s "x")); (s "void", JNull)] in
+  ConformCodecs.k6_common (ConformCodecs.k6q "NulVoid") ConformCodecs.k6_nulvoid m /\
+  owner_of ConformCodecs.k6s ConformCodecs.k6_nulvoid = Own FtNullable /\ NullableConforms.nulplain_msg ConformCodecs.k6_nulvoid = true /\
+  ConformCodecs.kids_plain ConformCodecs.k6s ConformCodecs.k6_nulvoid m = true /\
+  ConformCodecs.nullable_shape ConformCodecs.k6s ConformCodecs.k6_nulvoid = false /\
+  ConformCodecs.nullable_enums_inhabited ConformCodecs.k6s ConformCodecs.k6_nulvoid = false /\
+  forallb (fun f => negb (is_nullable f) || (ConformCodecs.singularish f && ConformCodecs.nullable_kind (f_kind f))) (m_fields ConformCodecs.k6_nulvoid) = true /\
+  encode Ex ConformCodecs.k6s (ConformCodecs.k6q "NulVoid") m = ROk j /\
+  typed (convert_field ConformCodecs.k6s no_side (ConformCodecs.k6q "NulVoid") (set_nullable (fld "void" 1 (KEnum (ConformCodecs.k6q "Void")) Optional)))
+    = SObj [KwType [TString; TNull]; KwEnum []] /\
+  validates P06 (cd_tcs ConformCodecs.k6doc) c06_fuel (body_schema (ConformCodecs.k6q "NulVoid")) (wire_jv j) = VOk false.
+Proof. exact ConformCodecs.message_conforms_nullable_needs_inhabited. Qed.
+Print Assumptions C06_message_valid_nullable_needs_inhabited.
 
 (* nullable on a message field / on a repeated field (both refused by the generator): null is rejected *)
 Example C06_message_valid_nullable_needs_nonmessage :
@@ -433,7 +484,7 @@ Example C06_message_valid_nullable_needs_nonmessage :
   ConformCodecs.k6_common (ConformCodecs.k6q "NulMsg") ConformCodecs.k6_nulmsg m /\
   owner_of ConformCodecs.k6s ConformCodecs.k6_nulmsg = Own FtNullable /\ NullableConforms.nulplain_msg ConformCodecs.k6_nulmsg = true /\
   ConformCodecs.kids_plain ConformCodecs.k6s ConformCodecs.k6_nulmsg m = true /\
-  ConformCodecs.nullable_shape ConformCodecs.k6_nulmsg = false /\
+  ConformCodecs.nullable_shape ConformCodecs.k6s ConformCodecs.k6_nulmsg = false /\
   encode Ex ConformCodecs.k6s (ConformCodecs.k6q "NulMsg") m = ROk j /\
   validates P06 (cd_tcs ConformCodecs.k6doc) c06_fuel (body_schema (ConformCodecs.k6q "NulMsg")) (wire_jv j) = VOk false.
 Proof. exact ConformCodecs.message_conforms_nullable_needs_nonmessage. Qed.
@@ -443,7 +494,7 @@ Example C06_message_valid_nullable_needs_singular :
   ConformCodecs.k6_common (ConformCodecs.k6q "NulRep") ConformCodecs.k6_nulrep m /\
   owner_of ConformCodecs.k6s ConformCodecs.k6_nulrep = Own FtNullable /\ NullableConforms.nulplain_msg ConformCodecs.k6_nulrep = true /\
   ConformCodecs.kids_plain ConformCodecs.k6s ConformCodecs.k6_nulrep m = true /\
-  ConformCodecs.nullable_shape ConformCodecs.k6_nulrep = false /\
+  ConformCodecs.nullable_shape ConformCodecs.k6s ConformCodecs.k6_nulrep = false /\
   encode Ex ConformCodecs.k6s (ConformCodecs.k6q "NulRep") m = ROk j /\
   validates P06 (cd_tcs ConformCodecs.k6doc) c06_fuel (body_schema (ConformCodecs.k6q "NulRep")) (wire_jv j) = VOk false.
 Proof. exact ConformCodecs.message_conforms_nullable_needs_singular. Qed.
